@@ -24,6 +24,8 @@ inductive Op where
   | userTransfer (token src dst : Addr) (amount : Int) (authorised : Bool)
   /-- a minter other than the service mints on a service-deployed token -/
   | minterMint (token minter dst : Addr) (amount : Int) (authorised : Bool)
+  /-- the owner upgrades the service to its own code and runs the (empty) migration -/
+  | upgradeMigrate (auths : List Addr)
 
 inductive Obs where
   | ok (evs : List Event)
@@ -66,6 +68,18 @@ def step (st : State) : Op → State × Obs
       if tk.kind ≠ .interchain ∨ m = st.self ∨ !au ∨ !tk.minter m ∨ a < 0 ∨ tk.bal d + a > i128Max then (st, .err .tokenCallFailed)
       else (setTok st t { tk with bal := fun x => if x = d then tk.bal d + a else tk.bal x }, .ok [])
     | none => (st, .err .tokenCallFailed)
+  | .upgradeMigrate au => if st.owner ∈ au then (st, .ok []) else (st, .err .unauthorized)
+
+/-- upgrade to the same code + the empty migration changes nothing -/
+theorem step_upgradeMigrate_fst (st : State) (au : List Addr) : (step H S k st (.upgradeMigrate au)).1 = st := by
+  simp only [step]; split <;> rfl
+
+/-- … and it reports either success without events or `unauthorized` -/
+theorem step_upgradeMigrate_snd (st : State) (au : List Addr) :
+    (step H S k st (.upgradeMigrate au)).2 = .ok [] ∨ (step H S k st (.upgradeMigrate au)).2 = .err .unauthorized := by
+  simp only [step]; split
+  · exact Or.inl rfl
+  · exact Or.inr rfl
 
 def run (st : State) : List Op → State × List Obs
   | [] => (st, [])
